@@ -226,6 +226,34 @@ def gen_supersede(rng: Any, i: int) -> dict:
             "objects": [obj], "timeline": tl, "settings": {"execution.default_backoff": 1.0}, "end": t + 30.0}
 
 
+def gen_foreign_burst(rng: Any, i: int) -> dict:
+    """Several foreign events of the object queued between the event kopf works on and the echo of its own
+    progress patch (another actor edits labels/status while a handler runs, or the echo is slow but well
+    within the consistency timeout): the views they carry lack the progress just recorded."""
+    kind = rng.choice(["create", "update"])
+    n = rng.choice([2, 2, 3])
+    handlers = []
+    for k in range(n):
+        script: list = []
+        if k == 0 or rng.random() < 0.4:
+            script.append(["sleep", rng.choice([0.5, 1.0, 1.5]), rng.choice(["ok", "ok", ["temp", 1.0]])])
+        handlers.append({"kind": kind, "id": f"{kind[0]}{k}", "opts": {}, "script": script, "default": "ok"})
+    t0 = 1.0
+    timeline: list[list] = [[t0, "create", "a", {"spec": {"x": 0}, "metadata": {"labels": {"l": "1"}}}]]
+    t = t0
+    if kind == "update":
+        t = t0 + 3.0
+        timeline.append([t, "edit", "a", {"spec": {"x": 1}}])
+    for j in range(rng.choice([2, 2, 3, 4])):
+        t += rng.choice([0.125, 0.25, 0.25, 0.5])
+        what = rng.choice(["label", "label", "status"])
+        timeline.append([t, "edit", "a", {"metadata": {"labels": {f"z{j % 2}": str(j)}}} if what == "label"
+                         else {"status": {"foreign": j}}])
+    return {"seed": i, "lifecycle": rng.choice(["one_by_one", "asap", "all_at_once"]), "handlers": handlers,
+            "timeline": timeline, "settings": {"execution.default_backoff": 1.0},
+            "echo_delay": {"default": rng.choice([0.0, 0.0, 0.25, 0.5, 1.0])}, "end": t + 30.0}
+
+
 def _own_record(body: dict, hid: str) -> dict | None:
     """Independent decoding of a progress annotation of the default storage (short ids only)."""
     ann = (body.get("metadata") or {}).get("annotations") or {}
@@ -390,6 +418,7 @@ def run(ctx: Ctx) -> None:
     n = ctx.budget(120, 4000)
     scenarios = [gen_scenario(ctx.rng, ctx.seed * 100000 + i) for i in range(n)]
     scenarios += [gen_supersede(ctx.rng, 50_000_000 + ctx.seed * 100000 + i) for i in range(max(10, n // 4))]
+    scenarios += [gen_foreign_burst(ctx.rng, 60_000_000 + ctx.seed * 100000 + i) for i in range(max(10, n // 4))]
     for name, sc in _corpus():
         scenarios.insert(0, sc)
     results = pool.run_many(scenarios, wall=40.0)
